@@ -694,7 +694,7 @@ def model_value(model, term_or_sym, default=0.0):
         if z3.is_algebraic_value(v):
             return float(v.approx(20).as_fraction())
     except OverflowError:      # model value beyond the float range: clamp (only used for native cross-checks/replays)
-        return math.copysign(1e300, c if c is not None else 1)
+        return math.copysign(1e300, -1 if (c is not None and c < 0) else 1)   # (copysign itself must not convert the huge value)
     return default
 
 
